@@ -159,6 +159,7 @@ class StepHooks(LibHooks):
         self.applied = False
         self.api_mode = False
         self.api_rets = []
+        self.post_writes = []
 
     def on_loop_entry(self, fn, head, entry):
         if fn.name != STEP_FN:
@@ -206,6 +207,25 @@ class StepHooks(LibHooks):
 
     # own record of the state-array cells written during the iteration (the J bookkeeping of LibHooks resets its own)
     def on_store(self, st, r, off, size, val, ins):
+        if self.api_mode and st.tags.get('api_first_done') and r.name in ('STATE', 'P') and st.top.fn.name != STEP_FN and \
+                not any(fr.fn.name == STEP_FN for fr in st.frames[1:]):
+            # the public function itself writes parser state after its loop call: which field, and does the value change?
+            lay = self.lay
+            field = None
+            if r.name == 'P':
+                for n_, (o_, s_) in lay.parser.items():
+                    if off.is_const() and o_ <= off.c < o_ + s_:
+                        field = 'parser.' + n_
+            else:
+                ef = self.elem_field(off)
+                if ef is not None:
+                    for n_, (o_, s_) in lay.state.items():
+                        if o_ <= ef[1] < o_ + s_:
+                            field = 'level.' + n_
+            old = (st.cells(r.name) or {}).get((off.key(), size))
+            same = old is not None and repr(old[2]) == repr(val)
+            if not same:
+                self.post_writes.append((field or '%s+%r' % (r.name, off), ins.loc()))
         LibHooks.on_store(self, st, r, off, size, val, ins)
         if r.name == 'STATE' and size is not None and 'step_base' in st.tags:
             st.tags['step_dirty'] = st.tags.get('step_dirty', frozenset()) | {(off.key(), size)}
@@ -510,8 +530,8 @@ def _work(i):
 def _work_api(i):
     (api, K) = _G['keys'][i]
     try:
-        res, reached = eval_api_step(_G['mod'], api, K)
-        return {'ok': True, 'K': K, 'api': api, 'outcomes': res, 'reached': reached}
+        res, reached, post_writes = eval_api_step(_G['mod'], api, K)
+        return {'ok': True, 'K': K, 'api': api, 'outcomes': res, 'reached': reached, 'post_writes': post_writes}
     except AnalysisBroken as e:
         return {'ok': False, 'K': K, 'api': api, 'error': 'AnalysisBroken: %s' % e}
     except Exception as e:
@@ -682,4 +702,4 @@ def eval_api_step(mod, api, K):
         res.append(outcome(C, hooks, s, 'ret', rv, phi))
     for s in hooks.backs:
         res.append(outcome(C, hooks, s, 'cont', None, phi))
-    return res, hooks.applied
+    return res, hooks.applied, sorted(set(hooks.post_writes))
